@@ -215,7 +215,11 @@ fn parse_member(
     };
 
     let key_span = cst.span(key);
-    let key = String::from_str(&source[key_span.start + 1..key_span.end - 1]).unwrap_or_default();
+    // the member name is the string the escapes denote; texts serde_json refuses (a lone surrogate
+    // escape) keep the raw text between the quotes
+    let key = serde_json::from_str::<String>(&source[key_span.clone()]).unwrap_or_else(|_| {
+        String::from_str(&source[key_span.start + 1..key_span.end - 1]).unwrap_or_default()
+    });
 
     has_errors(cst, source, sub_node)?;
     let Some(member_value) = cst.children(sub_node).find(|node_ref| {
